@@ -112,6 +112,15 @@ def check(w, table, r):
     else:
         if got[0] == "ok" and got[1]:
             r.nontrivial.add(h64(got[1]))
+        # the flag keeps its meaning next to the decoder's other flag (legacy symbols are modernised wherever the decoder
+        # reads them - as rules and as index symbols - also on the attributed path)
+        both = out(s, compatible=True, attribute=True)
+        if both[0] == "ok" and isinstance(both[1], tuple):
+            both = ("ok", both[1][0])
+        if both != got:
+            ok = False
+            r.violation("compatible+attribute!=compatible", case,
+                        "decoder(%r, compatible=True) gives %r, with attribute=True also set %r" % (s, got, both))
     # without the flag: the reference model on the raw tokens decides
     verdict, _ = deccmp.compare(_SF, s, w, table)
     if verdict is not None:
